@@ -1215,7 +1215,8 @@ let () =
     while true do
       let line = input_line stdin in
       let toks = String.split_on_char ' ' line in
-      match toks with
+      (* one malformed or unexpected line must not end the run: it is reported as a disagreement on that case *)
+      try (match toks with
       | "reply" :: id :: rest -> let (i, o) = split_arrow rest in do_reply id i o
       | "query" :: id :: rest -> let (i, o) = split_arrow rest in do_query id i o
       | "uniq" :: id :: rest -> let (i, o) = split_arrow rest in do_uniq id i o
@@ -1264,6 +1265,11 @@ let () =
            else verdict "dbind" id "spec:C16" tag (Printf.sprintf "the daemon was started on an address it cannot bind: exit status %s after %s ms, bind failure reported=%s (expected: reported, exit 1)" rc ms reported)
          | _ -> verdict "dbind" id "diff" "malformed-line" "")
       | "prof" :: id :: rest -> let (i, o) = split_arrow rest in do_prof id i o
-      | _ -> ()
+      | _ -> ())
+      with
+      | End_of_file -> raise End_of_file
+      | e -> (match toks with
+          | eng :: id :: _ -> verdict eng id "diff" "driver-exception" (Printexc.to_string e)
+          | _ -> ())
     done
   with End_of_file -> ()
